@@ -20,6 +20,12 @@ import (
 	"strings"
 )
 
+func srcOfNode(n ast.Node) string {
+	var b bytes.Buffer
+	printer.Fprint(&b, fset, n)
+	return strings.Join(strings.Fields(b.String()), " ")
+}
+
 func srcOf(e ast.Expr) string {
 	var b bytes.Buffer
 	printer.Fprint(&b, fset, e)
